@@ -304,6 +304,49 @@ def cstr(s):
     return '"%s"' % str(s).replace('"', '""')
 
 
+# which entry of the daemon's command handler a message with each member of the MessageBody union must reach
+# (AppReply travels from the daemon to the agent only: an agent sending one is refused)
+DISPATCH = {"App": ["app"], "Transaction": ["txn"], "SpanBatch": ["span"], "AppReply": []}
+
+
+def dispatch_stage(chk, S):
+    """every member of the MessageBody union of protocol.fbs, as a well-formed message through the daemon's own connection
+    loop and CommandsHandler.HandleMessage: it must be taken for that member (seeded/C15h1)"""
+    members = [(n, v) for n, v in S["fbs"]["unions"]["MessageBody"]["members"] if n != "NONE"]
+    unknown = [n for n, _ in members if n not in DISPATCH]
+    if unknown:
+        chk.fail("dispatch_members.txt", "protocol.fbs has MessageBody members the dispatch stage has no expectation for: %s" % unknown,
+                 no_input=True)
+        return
+    binary, blog = vlib.go_test_binary("newrelic", only=["c10", "c15d"])
+    if binary is None:
+        chk.fail("dispatch_build.txt", "dispatch harness (package newrelic, TestVerifC15Dispatch) does not build against the current "
+                 "tree:\n" + blog[-3000:], no_input=True)
+        return
+    outp = os.path.join(vlib.BUILD, "c15d_out.json")
+    if os.path.exists(outp):
+        os.remove(outp)
+    rc, out = vlib.run_go_test(binary, "TestVerifC15Dispatch", {"VERIF_OUT": outp}, timeout=120)
+    if rc != 0 or not os.path.exists(outp):
+        chk.fail("dispatch_run.txt", "TestVerifC15Dispatch failed:\n" + out[-3000:], no_input=True)
+        return
+    obs = json.load(open(outp))
+    bad = 0
+    for name, tag in members:
+        o = obs.get(name)
+        chk.count_case(["dispatch", name, tag, o])
+        ok = o is not None and o["tag"] == tag and o["kinds"] == DISPATCH[name] and (
+            o["class"] in ("none", "reply") if DISPATCH[name] else o["class"] in ("error", "none"))
+        if not ok:
+            bad += 1
+            chk.fail("dispatch_%s.json" % name, {"what": "a well-formed message whose body is the MessageBody member %s (union tag %d in "
+                                                        "protocol.fbs) is not taken for that member by the daemon's command handler"
+                                                        % (name, tag),
+                                                "expected_handler_calls": DISPATCH[name], "observed": o},
+                     sig="c15-dispatch-%s" % name)
+    chk.cov.setdefault("stages", {})["dispatch"] = {"members": len(members), "wrong": bad}
+
+
 def run(chk, replay=None):
     import schema
     import gen_all
@@ -533,6 +576,7 @@ Print corr_bad. Print prop_bad. Print enum_bad. Print static_agree. Print static
         c = cases[res["prop_bad"][0]]
         chk.fail("decode_flat_%d.json" % res["prop_bad"][0], {"what": "decoded fields differ from the sent fields", "flat_case": c},
                  sig="c15-decode-%s" % c["table"])
+    dispatch_stage(chk, S)
     broken = []
     if not st["build_ok"]:
         broken.append("theorems of PropC15.v no longer check:\n" + st["log"][-3000:])
